@@ -14,7 +14,7 @@ from . import C10, core, solcore
 ERR = "1e-6"
 
 
-def coincident(rng):
+def coincident(rng, flitch=None):
     """two bars with identical geometry between the same nodes (ties in the sort by position) plus a third"""
     s = G.Structure()
     G.std_mat_sec(s, rng)
@@ -26,6 +26,17 @@ def coincident(rng):
                {"kind": "c", "term": "fx", "local": False, "bar": "b", "t": Fr("0.4"), "v": Fr(500)},
                {"kind": "c", "term": "fy", "local": False, "bar": "c", "t": Fr(0), "v": Fr(-250)}]
     s.meta = {"kind": "coincident-bars"}
+    if (rng.random() < 0.5) if flitch is None else flitch:
+        # a flitch beam: two different members (another section, another material) side by side between the
+        # same nodes, sliced alike and carrying the same loads (none, or the same one each)
+        s.secs["plate"] = (Fr("24"), Fr("288"), Fr("2"), Fr("48"), Fr("4"))
+        s.mats["timber"] = (Fr("0.0000005"), Fr(1100000), Fr(69000), Fr("0.3"), Fr(2400), Fr(4000))
+        s.bars[1].update(l2=G.LINKS["rigid"], mat="timber", sec="plate")
+        s.loads = s.loads[2:]
+        if rng.random() < 0.5:
+            for bid in ("a", "b"):
+                s.loads.append({"kind": "d", "term": "fy", "local": True, "bar": bid, "t0": Fr(0), "v0": Fr(-20), "t1": Fr(1), "v1": Fr(-20)})
+        s.meta = {"kind": "coincident-bars/flitch"}
     return s
 
 
@@ -62,7 +73,7 @@ def gen(rng, tier):
     n = 8 if tier == "quick" else 120
     cases = []
     for g in range(n):
-        s = G.gen_name_collision(rng) if g == 3 else coincident(rng) if g % 4 == 0 else (G.gen_twins(rng) if g % 4 == 2 else (G.gen_solvable(rng) if g % 2 else G.gen_frame(rng, max_cells=1)))
+        s = G.gen_name_collision(rng) if g == 3 else coincident(rng, flitch=(g % 8 == 0)) if g % 4 == 0 else (G.gen_twins(rng) if g % 4 == 2 else (G.gen_solvable(rng) if g % 2 else G.gen_frame(rng, max_cells=1)))
         if len(s.bars) > 5:
             s.bars = s.bars[:5]
             ids = {b["id"] for b in s.bars}
@@ -70,7 +81,7 @@ def gen(rng, tier):
             used = {b["n1"] for b in s.bars} | {b["n2"] for b in s.bars}
             s.nodes = {k: v for k, v in s.nodes.items() if k in used}
         base = L.layout(rng, s, plain=True)
-        w = (g % 3 == 0)
+        w = (g % 3 == 0) and s.meta["kind"] != "coincident-bars/flitch"     # with their weight on, the two members of a flitch beam carry different loads
         cases.append({"Text": base, "kind": s.meta["kind"], "group": g, "role": "base", "Weight": w, "Solve": True, "Assemble": True, "Error": ERR})
         ids = [b["id"] for b in s.bars]
         perms = list(itertools.permutations(ids))
